@@ -170,6 +170,30 @@ def helpers_rounding_task(task):
                         'failures': bad}}
 
 
+def scalar_types_task(task):
+    """E (closed evaluation over the number types the package documents for chips): a layout written as ONE number means that amount for
+    every player, whatever the type of the number -- int, float, Fraction, Decimal, and the infinite float used for caps"""
+    import fractions
+    import math
+    from decimal import Decimal
+    from pokerkit.utilities import clean_values
+    bad = []
+    vals = [0, 3, 2.5, fractions.Fraction(1, 2), Decimal('0.5'), Decimal('2E+1'), math.inf]
+    for v in vals:
+        for n in (1, 2, 6):
+            try:
+                got = tuple(clean_values(v, n))
+            except Exception as e:   # noqa
+                bad.append((repr(v), n, repr(e)))
+                continue
+            if got != (v,) * n or any(type(x) is not type(v) for x in got):
+                bad.append((repr(v), n, repr(got)))
+    return {'results': [{'id': 'C19/clean_values/a-single-number-of-any-chip-type-means-that-amount-for-everybody/E', 'kind': 'P', 'prop': 'C19',
+                         'label': 'E', 'status': 'valid' if not bad else 'refuted', 'backend': 'CPython-closed', 'seconds': 0.0, 'native': True,
+                         'detail': f'{len(vals)} numbers x 3 player counts; failures: {bad[:4]}',
+                         'meta': {'function': 'pokerkit.utilities.clean_values', 'domain': len(vals) * 3, 'exhaustive': True}}], 'contract': None}
+
+
 def shared_c06_task(task):
     """the ways of naming cards in an operation (None, a count, a sequence, ONE bare Card object) mean the same cards: the clauses live
     in the C06 contracts of burn_card / deal_hole / deal_board (`*_what_was_named`, `*_what_was_asked`) and are run here too"""
@@ -187,8 +211,8 @@ def main(argv=None):
     M = 'props.c19'
     base = Shape(n=2, S=1, T=1, B=1, H=1).as_dict()
     for ch in ('int', 'real'):
-        tasks.append({'module': M, 'fn': 'vc_task', 'kind': 'divmod', 'shape': base, 'chips': ch, 'timeout_ms': to, 'name': f'divmod/{ch}', 'sample': 1})
-        tasks.append({'module': M, 'fn': 'vc_task', 'kind': 'rake', 'shape': base, 'chips': ch, 'timeout_ms': to, 'name': f'rake/{ch}'})
+        tasks.append({'module': M, 'fn': 'vc_task', 'kind': 'divmod', 'shape': base, 'chips': ch, 'timeout_ms': max(to, 60000), 'name': f'divmod/{ch}', 'sample': 1})
+        tasks.append({'module': M, 'fn': 'vc_task', 'kind': 'rake', 'shape': base, 'chips': ch, 'timeout_ms': max(to, 60000), 'name': f'rake/{ch}'})
     for n in ((2, 3, 4, 6, 9) if thorough else (2, 3, 6)):
         for ch in (('int', 'real') if thorough else ('int',)):
             tasks.append({'module': M, 'fn': 'vc_task', 'kind': 'clean', 'rep': 'number', 'n': n, 'shape': base, 'chips': ch, 'timeout_ms': to, 'name': f'clean/number/n{n}'})
@@ -207,6 +231,7 @@ def main(argv=None):
             tasks.append({'module': M, 'fn': 'shared_c06_task', 'name': f'{name}/n{sh.n}', 'contract': name, 'shape': sh.as_dict(),
                           'timeout_ms': 120000 if thorough else 40000, 'weight': 20 * sh.n})
     tasks.append({'module': M, 'fn': 'helpers_rounding_task', 'name': 'helpers-rounding'})
+    tasks.append({'module': M, 'fn': 'scalar_types_task', 'name': 'scalar-types'})
     tasks.append({'module': M, 'fn': 'card_roundtrip_task', 'name': 'card-roundtrip'})
     tasks.append({'module': M, 'fn': 'card_text_task', 'L': 3 if thorough else 2, 'name': 'card-text', 'weight': 50})
     chk.run_tasks(tasks)
